@@ -339,4 +339,313 @@ example : ∀ op ∈ exampleOps, OpOn 0 op := by
 example : (run World.init exampleOps).committed.iteration = 1 ∧ (run World.init exampleOps).committed.rows.length = 1 ∧
     (run World.init exampleOps).committed.keyNames = [(1, .text [97]), (2, .text [98])] := by decide
 
+/-! ## Follow-up: reads included, any number of connection slots interleaved
+
+The sequence theorems above are per slot and exclude `lookup` / `keys`.  Below: NO restriction on the ops (any slot,
+reads anywhere, crashes and resets anywhere); only the engine protocol `WellFormedBuild`.  The structural half
+(`SnapInv`, caches) is `InvG` (Lemmas/BuildDBInv, needs no protocol hypothesis at all); the epoch half is `EpochInv`.
+Other slots cannot interfere because of the single-writer invariant (`LockInv`, C03_single_writer). -/
+
+/-- stored epoch ≥ every committed row's epochs; the rows of the connection inside the transaction are at most one
+epoch ahead of the committed iteration -/
+structure EpochInv (w : World) : Prop where
+  committed : EpochOK w.committed
+  pending : ∀ c cn, w.conns c = some cn → cn.state = .inTxn → ∀ id row, (id, row) ∈ cn.pending.rows →
+      row.builtAt ≤ w.committed.iteration + 1 ∧ row.computedAt ≤ w.committed.iteration + 1
+
+theorem EpochInv_init : EpochInv World.init :=
+  ⟨(by intro id row h; cases h), (by intro c cn h; simp [World.init] at h)⟩
+
+theorem EpochInv_setConn {w : World} {c : Nat} {cn : Conn} (h : EpochInv w)
+    (hc : cn.state = .inTxn → ∀ id row, (id, row) ∈ cn.pending.rows →
+      row.builtAt ≤ w.committed.iteration + 1 ∧ row.computedAt ≤ w.committed.iteration + 1) : EpochInv (setConn w c cn) := by
+  refine ⟨h.committed, ?_⟩
+  intro c' cn' hc' hst
+  simp only [setConn] at hc' ⊢
+  by_cases hcc : c' = c
+  · simp only [hcc, ↓reduceIte] at hc'
+    injection hc' with hc'
+    subst hc'
+    exact hc hst
+  · simp only [hcc, ↓reduceIte] at hc'
+    exact h.pending c' cn' hc' hst
+
+theorem EpochInv_dropConn {w : World} (h : EpochInv w) (c : Nat) : EpochInv (dropConn w c) := by
+  have hcm : (dropConn w c).committed = w.committed := by unfold dropConn delConn; split <;> rfl
+  refine ⟨hcm ▸ h.committed, ?_⟩
+  intro c' cn' hc'
+  rw [hcm]
+  have : w.conns c' = some cn' := by
+    unfold dropConn delConn at hc'
+    split at hc' <;> (simp only at hc'; split at hc' <;> first | cases hc' | exact hc')
+  exact h.pending c' cn' this
+
+/-- after a successful `ensureOpen` -/
+theorem EpochInv_ensureOpen {w : World} {c : Nat} {cn : Conn} {w1 : World} {cn1 : Conn} (h : EpochInv w)
+    (hc : w.conns c = some cn) (he : ensureOpen w c cn = .ok (w1, cn1)) :
+    EpochInv w1 ∧ (cn1.state = .inTxn → ∀ id row, (id, row) ∈ cn1.pending.rows →
+      row.builtAt ≤ w1.committed.iteration + 1 ∧ row.computedAt ≤ w1.committed.iteration + 1) := by
+  obtain ⟨_, hcases⟩ := ensureOpen_ok_cases he
+  have hp := h.pending c cn hc
+  rcases hcases with ⟨_, rfl, rfl⟩ | ⟨hst, _, rfl, rfl⟩ | ⟨hst, _, _, rfl, rfl⟩
+  · exact ⟨h, hp⟩
+  · exact ⟨h, by simp⟩
+  · refine ⟨⟨(by intro id row hm; cases hm), ?_⟩, by simp⟩
+    intro c' cn' hc' hst'
+    simp only [forgetOpen] at hc'
+    cases hw : w.conns c' with
+    | none => simp [hw] at hc'
+    | some cn0 =>
+      simp only [hw] at hc'
+      split at hc'
+      · rename_i hst0
+        injection hc' with hc'
+        subst hc'
+        rw [hst0] at hst'; cases hst'
+      · cases hc'
+
+/-- a step that only changes the caches of connection `c` -/
+theorem EpochInv_readStep {w : World} {c : Nat} {cn : Conn} {w1 : World} {cn1 cn2 : Conn} (h : EpochInv w)
+    (hc : w.conns c = some cn) (he : ensureOpen w c cn = .ok (w1, cn1)) (hctl : SameCtl cn1 cn2) :
+    EpochInv (setConn w1 c cn2) := by
+  obtain ⟨h1, p1⟩ := EpochInv_ensureOpen h hc he
+  apply EpochInv_setConn h1
+  intro hst
+  rw [hctl.2.2.2]
+  exact p1 (hctl.2.2.1 ▸ hst)
+
+theorem EpochInv_step {w : World} (hl : LockInv w) (h : EpochInv w) (op : Op) (hwf : StepWF w op) : EpochInv (step w op).1 := by
+  cases op with
+  | reset => exact EpochInv_init
+  | crash => exact ⟨h.committed, by intro c cn hc; simp [step] at hc⟩
+  | new c cl rc =>
+    simp only [step]
+    exact EpochInv_setConn (EpochInv_dropConn h c) (by simp [Conn.fresh])
+  | drop c =>
+    simp only [step]
+    cases hc : w.conns c with
+    | none => exact h
+    | some cn => exact EpochInv_dropConn h c
+  | epoch c =>
+    simp only [step, withOpen]
+    cases hc : w.conns c with
+    | none => exact h
+    | some cn =>
+      simp only
+      cases he : ensureOpen w c cn with
+      | error e => exact h
+      | ok p =>
+        obtain ⟨w1, cn1⟩ := p
+        exact EpochInv_readStep h hc he (SameCtl.rfl' cn1)
+  | lookup c k =>
+    simp only [step, withOpen]
+    cases hc : w.conns c with
+    | none => exact h
+    | some cn =>
+      simp only
+      cases he : ensureOpen w c cn with
+      | error e => exact h
+      | ok p =>
+        obtain ⟨w1, cn1⟩ := p
+        exact EpochInv_readStep h hc he (applyLookup_ctl _ _ _)
+  | keys c =>
+    simp only [step, withOpen]
+    cases hc : w.conns c with
+    | none => exact h
+    | some cn =>
+      simp only
+      cases he : ensureOpen w c cn with
+      | error e => exact h
+      | ok p =>
+        obtain ⟨w1, cn1⟩ := p
+        have hctl := applyKeys_ctl (view w1 cn1).keyNames (sortRows (view w1 cn1).rows) cn1
+        simp only
+        split
+        · rename_i cn2 l hk; rw [hk] at hctl; exact EpochInv_readStep h hc he hctl
+        · rename_i cn2 e hk; rw [hk] at hctl; exact EpochInv_readStep h hc he hctl
+  | start c =>
+    simp only [step, withOpen]
+    cases hc : w.conns c with
+    | none => exact h
+    | some cn =>
+      simp only
+      cases he : ensureOpen w c cn with
+      | error e => exact h
+      | ok p =>
+        obtain ⟨w1, cn1⟩ := p
+        obtain ⟨h1, p1⟩ := EpochInv_ensureOpen h hc he
+        simp only
+        split
+        · exact EpochInv_setConn h1 p1
+        · apply EpochInv_setConn (w := { w1 with lock := some c }) ⟨h1.committed, h1.pending⟩
+          intro _ id row hm
+          have := h1.committed id row hm
+          simp only at this ⊢
+          omega
+  | setiter c m =>
+    obtain ⟨cn, hc, hst, hm⟩ := hwf
+    have he := ensureOpen_inTxn hl hc hst
+    simp only [step, withOpen, hc, he, putView, view, hst, ↓reduceIte]
+    exact EpochInv_setConn h (fun _ => h.pending c cn hc hst)
+  | set c k r =>
+    obtain ⟨cn, hc, hst, hb, hcm⟩ := hwf
+    have he := ensureOpen_inTxn hl hc hst
+    have hst' : (applySet cn cn.pending k r).1.state = .inTxn := (applySet_ctl cn cn.pending k r).2.2.1.trans hst
+    simp only [step, withOpen, hc, he, putView, view, hst, ↓reduceIte, hst']
+    apply EpochInv_setConn h
+    intro _ id row hm
+    simp only at hm
+    obtain ⟨_, id0, blob, hrows⟩ := applySet_rows cn cn.pending k r
+    rw [hrows] at hm
+    rcases mem_putRow hm with ⟨hold, _⟩ | ⟨_, rfl⟩
+    · exact h.pending c cn hc hst id row hold
+    · exact ⟨hb, hcm⟩
+  | complete c =>
+    simp only [step]
+    cases hc : w.conns c with
+    | none => exact h
+    | some cn =>
+      simp only
+      split
+      · rename_i hst
+        have hit := hwf cn hc hst
+        have hlc := hl.holder c cn hc hst
+        refine ⟨?_, ?_⟩
+        · intro id row hm
+          have := h.pending c cn hc hst id row hm
+          simp only [setConn] at hm ⊢
+          omega
+        · intro c' cn' hc' hst'
+          simp only [setConn] at hc'
+          by_cases hcc : c' = c
+          · simp only [hcc, ↓reduceIte] at hc'
+            injection hc' with hc'
+            subst hc'
+            rw [Conn.closed_state] at hst'; cases hst'
+          · simp only [hcc, ↓reduceIte] at hc'
+            have := hl.holder c' cn' hc' hst'
+            rw [hlc] at this; injection this with this
+            exact absurd this.symm hcc
+      · exact EpochInv_setConn h (fun hs => by rw [Conn.closed_state] at hs; cases hs)
+
+/-- everything that holds of a world reached by a well-formed history over any number of slots -/
+theorem AllInv_run : ∀ (ops : List Op) (n : Nat) (w : World), InvG n w → EpochInv w → WellFormedBuild w ops →
+    InvG (n + opsWeight ops) (run w ops) ∧ EpochInv (run w ops) := by
+  intro ops
+  induction ops with
+  | nil => intro n w h he _; exact ⟨h, he⟩
+  | cons op rest ih =>
+    intro n w h he hwf
+    have := ih _ _ (InvG_step C03_stored_key_faithful closeClears h op) (EpochInv_step h.lock he op hwf.1) hwf.2
+    simp only [opsWeight, run]
+    rw [← Nat.add_assoc]
+    exact this
+
+/-- "holds a mutually consistent snapshot", ALL op sequences: any number of connection slots interleaved (several
+BuildDB objects / processes alive at once), `lookup` and `keys` anywhere, crashes and resets anywhere.  The only
+hypothesis is the engine's protocol `WellFormedBuild` (needed for the epoch clause only). -/
+theorem C04_committed_inv_all (ops : List Op) (hwf : WellFormedBuild World.init ops) :
+    CommittedInv (run World.init ops).committed := by
+  obtain ⟨h, he⟩ := AllInv_run ops 0 World.init InvG_init EpochInv_init hwf
+  exact ⟨h.data.snap.inv, he.committed⟩
+
+/-- the structural clauses (b)+(c) need no protocol hypothesis at all: whatever ANY clients do through the BuildDB
+interface, every committed row is what one `setRuleResult` wrote, with its own dependency list, all ids naming stored
+keys, and `rule_results.key_id` stays unique. -/
+theorem C04_snap_inv_unconditional (ops : List Op) :
+    SnapInv (run World.init ops).committed ∧ RowsNodup (run World.init ops).committed :=
+  let h := C03_reachable_inv ops
+  ⟨h.data.snap.inv, h.data.snap.nodup⟩
+
+/-- MULTI-SLOT: with several connection slots interleaved, the per-slot invariant `ConnInv` of EVERY slot holds after
+every well-formed history (closed ⇒ caches empty; open ⇒ caches agree with the committed key_names; in transaction ⇒
+pending snapshot consistent, caches agree with it, its rows at most one epoch ahead), on the read path too. -/
+theorem C04_slots_inv (ops : List Op) (hwf : WellFormedBuild World.init ops) (c : Nat) (cn : Conn)
+    (hc : (run World.init ops).conns c = some cn) : ConnInv (run World.init ops) cn := by
+  obtain ⟨h, he⟩ := AllInv_run ops 0 World.init InvG_init EpochInv_init hwf
+  have ci := h.data.conn c cn hc
+  refine ⟨ci.closed, ci.opened, fun hst => ?_⟩
+  obtain ⟨a, b, _, _⟩ := ci.inTxn hst
+  exact ⟨a.inv, b, he.pending c cn hc hst⟩
+
+/-- the single-slot invariant `Inv1` of the first part holds of slot `c` whenever no other slot holds the lock — for
+histories with reads and with other slots active -/
+theorem C04_inv1_all (ops : List Op) (hwf : WellFormedBuild World.init ops) (c : Nat)
+    (hlock : (run World.init ops).lock = none ∨ (run World.init ops).lock = some c) : Inv1 c (run World.init ops) := by
+  have hci := C04_committed_inv_all ops hwf
+  exact ⟨hci.1, hci.2, fun cn hc => C04_slots_inv ops hwf c cn hc, hlock⟩
+
+/-- one read (`lookupRuleResult` / `getKeysWithResult`) keeps the per-slot invariant `Inv1` (the missing cases of
+`Inv1_step`): the read path only adds cache entries that name rows of key_names -/
+theorem C04_read_preserves_inv1 {c : Nat} {w : World} (h : Inv1 c w) (k : Bytes) :
+    Inv1 c (step w (.lookup c k)).1 ∧ Inv1 c (step w (.keys c)).1 := by
+  have hfaith := C03_stored_key_faithful
+  have key : ∀ {w1 : World} {cn1 cn2 : Conn}, ConnInv w1 cn1 → cn1.state ≠ .closed → SnapInv w1.committed → SameCtl cn1 cn2 →
+      (KNOK (view w1 cn1).keyNames → CacheOK cn1 (view w1 cn1).keyNames → CacheOK cn2 (view w1 cn1).keyNames) → ConnInv w1 cn2 := by
+    intro w1 cn1 cn2 ci hncl hs hctl hca
+    obtain ⟨_, _, hst, hp⟩ := hctl
+    refine ⟨fun hc => absurd (hst ▸ hc) hncl, ?_, ?_⟩
+    · intro ho
+      have ho1 : cn1.state = .opened := hst ▸ ho
+      have hv : view w1 cn1 = w1.committed := by unfold view; simp [ho1]
+      rw [hv] at hca
+      exact hca hs.kn (ci.opened ho1)
+    · intro ht
+      have ht1 : cn1.state = .inTxn := hst ▸ ht
+      have hv : view w1 cn1 = cn1.pending := by unfold view; simp [ht1]
+      rw [hv] at hca
+      obtain ⟨a, b, d⟩ := ci.inTxn ht1
+      rw [hp]
+      exact ⟨a, hca a.kn b, d⟩
+  constructor
+  · simp only [step, withOpen]
+    cases hc : w.conns c with
+    | none => simpa using h
+    | some cn =>
+      rcases ensureOpen_inv h hc with ⟨e, he⟩ | ⟨w1, cn1, he, hs1, he1, hl1, ci1, hncl, _, _⟩
+      · simpa [he] using h
+      · simp only [he]
+        exact Inv1_setConn hs1 he1 (hl1 ▸ h.lock)
+          (key ci1 hncl hs1 (applyLookup_ctl _ _ _) (fun ok c => applyLookup_cacheOK hfaith ok c k))
+  · simp only [step, withOpen]
+    cases hc : w.conns c with
+    | none => simpa using h
+    | some cn =>
+      rcases ensureOpen_inv h hc with ⟨e, he⟩ | ⟨w1, cn1, he, hs1, he1, hl1, ci1, hncl, _, _⟩
+      · simpa [he] using h
+      · simp only [he]
+        have hctl := applyKeys_ctl (view w1 cn1).keyNames (sortRows (view w1 cn1).rows) cn1
+        have hca := fun ok c => applyKeys_cacheOK (kn := (view w1 cn1).keyNames) ok (sortRows (view w1 cn1).rows) cn1 c
+        split
+        · rename_i cn2 l hk
+          rw [hk] at hctl hca
+          exact Inv1_setConn hs1 he1 (hl1 ▸ h.lock) (key ci1 hncl hs1 hctl hca)
+        · rename_i cn2 e hk
+          rw [hk] at hctl hca
+          exact Inv1_setConn hs1 he1 (hl1 ▸ h.lock) (key ci1 hncl hs1 hctl hca)
+
+/-- epoch-reuse hazard, all sequences: after any well-formed history over any slots followed by a crash, the epoch of
+the next build (stored iteration + 1) exceeds every epoch in the surviving store -/
+theorem C04_no_epoch_reuse_all (ops : List Op) (hwf : WellFormedBuild World.init ops) (id : Nat) (row : Row)
+    (hr : (id, row) ∈ (step (run World.init ops) .crash).1.committed.rows) :
+    row.builtAt < (step (run World.init ops) .crash).1.committed.iteration + 1 ∧
+    row.computedAt < (step (run World.init ops) .crash).1.committed.iteration + 1 := by
+  have hc := (C04_crash_keeps_committed (run World.init ops)).1
+  rw [hc] at hr ⊢
+  have := (C04_committed_inv_all ops hwf).2 id row hr
+  omega
+
+/-! Non-vacuity: two slots interleaved with reads; slot 1 is refused while slot 0 builds, reads before and after;
+the history is well-formed. -/
+def exampleOps2 : List Op :=
+  [.new 0 1 true, .new 1 1 true, .start 0, .set 0 [97] ⟨[1], 5, 1, 1, [⟨[98], true, false⟩]⟩, .lookup 1 [97], .lookup 0 [97],
+   .keys 0, .setiter 0 1, .complete 0, .lookup 1 [97], .keys 1, .start 1, .set 1 [98] ⟨[2], 6, 2, 2, []⟩, .crash,
+   .new 1 1 true, .keys 1]
+
+theorem exampleOps2_wf : WellFormedBuild World.init exampleOps2 := by
+  simp only [exampleOps2, WellFormedBuild, StepWF]
+  decide
+
+example : (run World.init exampleOps2).committed.iteration = 1 ∧ (run World.init exampleOps2).committed.rows.length = 1 := by decide
+
 end LLBuild.BuildDB
